@@ -310,7 +310,7 @@ def run(tape, prop, tier):
     if prop == 'C16' and tape.chance(1, 12, 'app_layer'):
         return run_app_layer(tape, r)
     adversarial = prop == 'C18' or tape.chance(1, 6, 'adversarial')
-    max_redirect = tape.choice((20, 5, 2, 1, 0), 'max_redirect') if adversarial else tape.choice((20, 5, 3), 'max_redirect')
+    max_redirect = tape.choice((20, 5, 2, 1, 0, 32, 45), 'max_redirect') if adversarial else tape.choice((20, 5, 3), 'max_redirect')
     use_cookies = tape.chance(3, 4, 'cookies')
     opt_login = None
     if tape.chance(1, 3 if prop == 'C18' else 4, 'opt_login'):
